@@ -379,7 +379,7 @@ def run_node_name(ctx: Ctx) -> RuleResult:
                         'callback names depending on the engine' % (parts, want), construct='node-name:%s' % parts)
     # the expanded-single-child exception must not apply to aliased alternatives
     ib = repo.func('lark.parse_tree_builder:ParseTreeBuilder._init_builders')
-    ok = has_pat(ib.body_nodes(), '($e and not $r.alias) and ExpandSingleChild') or has_pat(ib.body_nodes(), '$e and (not $r.alias) and ExpandSingleChild')
+    ok = has_pat(ib.body_nodes(), '($$e and not $r.alias) and ExpandSingleChild') or has_pat(ib.body_nodes(), '$$e and (not $r.alias) and ExpandSingleChild')
     res.ob('%s %s' % (ib.loc(), ib.qual), '?rule inlining is disabled for aliased alternatives', ok)
     if not ok:
         res.finding(ib, ib.node, 'ExpandSingleChild is no longer disabled for aliased alternatives', construct='expand1-alias')
